@@ -26,17 +26,17 @@ type World struct {
 	Sorts    *Sorts
 	C        *Contracts
 
-	FuncC   map[*ssa.Function]*FuncContract // by origin function
-	NamedC  map[string]*FuncContract        // functype/interface/extern contracts by key
-	fnIDs   map[*ssa.Function]int
-	fnByID  []*ssa.Function
+	FuncC    map[*ssa.Function]*FuncContract // by origin function
+	NamedC   map[string]*FuncContract        // functype/interface/extern contracts by key
+	fnIDs    map[*ssa.Function]int
+	fnByID   []*ssa.Function
 	fnIDUsed map[int]bool
-	specs   map[string]*specInfo
-	strLits map[string]string
+	specs    map[string]*specInfo
+	strLits  map[string]string
 
-	appDecls      map[string]string
-	namedTypes    []types.Type
-	appOrder      []string
+	appDecls   map[string]string
+	namedTypes []types.Type
+	appOrder   []string
 
 	errTemplates  []errTemplate
 	TableProblems []string
